@@ -50,13 +50,8 @@ from pulser.devices import VirtualDevice
 PROP = "C18"
 TARGETS_MODEL = ["PulserModel.Switch", "Proofs.Switch"]
 TARGETS = ["PulserModel.Generated.StrictParams", *TARGETS_MODEL, "Properties.C18"]
-# theorems of Properties/C18.lean that are `decide` obligations over the generated table
-TIE_THEOREMS = {
-    "strict_sound", "strict_guards", "check_retarget_src", "strict_sample_checks", "renamed_calls",
-    "replayed_calls", "nonstrict_params", "caught_by_replay_loop", "device_params",
-}
-N_SEQ = {"quick": 600, "thorough": 12000}
-VARIANTS = {"quick": 12, "thorough": 40}
+N_SEQ = {"quick": 600, "thorough": 6000}
+VARIANTS = {"quick": 12, "thorough": 24}
 
 TRUSTED_BASE = [
     "Lean 4.33 kernel; axioms allowed: propext, Classical.choice, Quot.sound (audited per theorem)",
@@ -776,7 +771,23 @@ def run_case(case: dict) -> Result:
         return r
     if case.get("kind", "device") == "register":
         return check_register_switch(rs, case["mode"], {})
-    return check_device_switch(rs, apply_edits(case["device"], case["edits"]), case["strict"], case["edits"], {})
+    res = check_device_switch(rs, apply_edits(case["device"], case["edits"]), case["strict"], case["edits"], {})
+    exp = case.get("expect")
+    if exp:   # numbers shared with a Lean theorem about the model (hand-written corpus cases)
+        got0 = [[[int(s.ti), int(s.tf)] for s in sch.slots] for sch in rs.seq._schedule.values()]
+        if got0 != exp["original"]:
+            res.fails.append(F("model-values", f"original timeline {got0} differs from {exp['lean']}: {exp['original']}"))
+        try:
+            with warnings.catch_warnings():
+                warnings.simplefilter("ignore")
+                nd = Dev18(apply_edits(case["device"], case["edits"]))
+                new = rs.seq.switch_device(nd.device, case["strict"])
+            got1 = [[[int(s.ti), int(s.tf)] for s in sch.slots] for sch in new._schedule.values()]
+        except Exception as e:  # noqa: BLE001
+            got1 = f"raise:{type(e).__name__}"
+        if got1 != exp["switched"]:
+            res.fails.append(F("model-values", f"switched timeline {got1} differs from {exp['lean']}: {exp['switched']}"))
+    return res
 
 
 # ======================================================================================
@@ -851,23 +862,36 @@ def shrink(case: dict, sig: tuple) -> dict:
 # ======================================================================================
 # build / audit
 # ======================================================================================
-def _theorem_at(lines: list[str], lineno: int) -> str | None:
+_DECL = re.compile(r"\s*(?:theorem|example|def|lemma|instance|abbrev)\b\s*(\S*)")
+
+
+def _decl_at(lines: list[str], lineno: int) -> tuple[str, str]:
+    """(name, source text) of the declaration of Properties/C18.lean that contains line `lineno`."""
+    start = 0
     for i in range(min(lineno, len(lines)) - 1, -1, -1):
-        m = re.match(r"\s*theorem\s+(\S+)", lines[i])
-        if m:
-            return m.group(1)
-    return None
+        if _DECL.match(lines[i]):
+            start = i
+            break
+    end = len(lines)
+    for i in range(start + 1, len(lines)):
+        if _DECL.match(lines[i]) or lines[i].startswith("/-"):
+            end = i
+            break
+    m = _DECL.match(lines[start])
+    name = (m.group(1) if m else "") or f"example@{start + 1}"
+    return name.rstrip(":"), "\n".join(lines[start:end])
 
 
 def classify_build_failure(out: str) -> tuple[bool, list[str]]:
-    """(is a broken tie?, names of the table obligations / files that no longer check)."""
+    """(is a broken tie?, the obligations over the generated table / the files that no longer check).
+    An obligation over the table is a declaration of Properties/C18.lean that mentions `Generated.`."""
     src = (common.LEAN_DIR / "Properties" / "C18.lean").read_text().splitlines()
     broken, other = [], []
     for m in re.finditer(r"error: (\S+?\.lean):(\d+):(\d+)", out):
         f, ln = m.group(1), int(m.group(2))
         if f.endswith("Properties/C18.lean"):
-            th = _theorem_at(src, ln)
-            (broken if th in TIE_THEOREMS else other).append(th or f"{f}:{ln}")
+            name, text = _decl_at(src, ln)
+            (broken if "Generated." in common.strip_comments(text) else other).append(name)
         elif f.endswith("Generated/StrictParams.lean"):
             broken.append(f"Generated/StrictParams.lean:{ln}")
         else:
@@ -875,9 +899,30 @@ def classify_build_failure(out: str) -> tuple[bool, list[str]]:
     return bool(broken) and not other, sorted(set(broken)) or sorted(set(other))
 
 
+def import_closure(module: str = f"Properties.{PROP}") -> set[str]:
+    """Relative paths of the Lean sources of this project that `module` (transitively) imports."""
+    seen: set[str] = set()
+    todo = [module]
+    while todo:
+        m = todo.pop()
+        f = common.LEAN_DIR / (m.replace(".", "/") + ".lean")
+        rel = str(f.relative_to(common.LEAN_DIR))
+        if rel in seen or not f.exists():
+            continue
+        seen.add(rel)
+        for line in f.read_text().splitlines():
+            mm = re.match(r"\s*import\s+(\S+)", line)
+            if mm:
+                todo.append(mm.group(1))
+    return seen
+
+
 def lean_audit():
     thms = common.property_theorems(PROP)
-    bad = common.lean_forbidden_tokens()
+    # forbidden tokens anywhere in what Properties.C18 is built from (the unfinished files of other
+    # topics are not this property's obligations)
+    mine = import_closure()
+    bad = [h for h in common.lean_forbidden_tokens() if h.split(":")[0] in mine]
     if bad:
         raise InfraError("forbidden tokens in Lean sources: " + "; ".join(bad[:5]))
     axioms = common.audit_axioms(f"Properties.{PROP}", thms) if thms else {}
@@ -1038,6 +1083,12 @@ def check(tier: str, seed: int) -> int:
         pre_key = json.dumps(f.key, sort_keys=True)
         if pre_key in seen_keys:
             return
+        # an unshrunk failure that already is a listed finding with a replay needs no shrinking
+        kf0 = match_known(PROP, f.key, findings)
+        if kf0 is not None and kf0["id"] in known_replays and len(case.get("edits", [None])) == 1:
+            known_hits[kf0["id"]] += 1
+            seen_keys.add(pre_key)
+            return
         small = shrink(case, fail_sig(f))
         r = run_case(small)
         ff = next((x for x in r.fails if fail_sig(x) == fail_sig(f)), f)
@@ -1143,7 +1194,7 @@ def check(tier: str, seed: int) -> int:
     if tie_broken and not violations:
         for t in tie_broken:
             violations.append(dict(property=PROP, kind="tie", broken=t, no_failing_input_found=True,
-                                   theorems=sorted(TIE_THEOREMS)))
+                                   theorems=t.get("theorems", [])))
     elif tie_broken:
         for v in violations:
             v["tie_broken"] = tie_broken
@@ -1215,7 +1266,7 @@ def replay(path: str) -> int:
         print(out[-1500:])
         print(f"VIOLATION property={PROP} replay={path}")
         return 1
-    case = {k: item[k] for k in ("kind", "device", "ops", "edits", "strict", "mode") if k in item}
+    case = {k: item[k] for k in ("kind", "device", "ops", "edits", "strict", "mode", "expect") if k in item}
     case.setdefault("kind", "device")
     if "edits" in case:
         case["edits"] = norm_edits(case["edits"])
